@@ -14,7 +14,20 @@ def ps2_prop(pid, extra_lib, corr='Corr/Ps2Bits'):
     }
 
 
+def scan_prop(pid, setn, extra_lib):
+    return {
+        'lib': LIB + ['Spec/ScanRef', 'Spec/ScanAuto', 'Check/Scan'] + extra_lib,
+        'syn': ['Props/%s' % pid], 'needs_syn': ['Syn/Set%d' % setn] + extra_lib,
+        'ext': ['Props/%s_ext' % pid], 'needs_ext': ['ExtI/Scan'] + extra_lib,
+        'corr': ['Corr/Set%d' % setn], 'needs_corr': ['Syn/Set%d' % setn, 'ExtI/Scan'],
+        'cex_ext': 'Cex/%s_ext' % pid, 'cex_syn': 'Cex/%s_syn' % pid,
+        'replay_kind': 'bytes%d' % setn,
+    }
+
+
 PROPS = {
+    'C01': scan_prop('C01', 2, ['Check/C01']),
+    'C02': scan_prop('C02', 1, ['Check/C02']),
     'C06': dict(ps2_prop('C06', ['Check/C06']), replay_kind='bits'),
     'C05': {
         'lib': LIB + ['Spec/Frame', 'Check/C05'],
